@@ -61,7 +61,11 @@ assumed_store!(LruStore, 1);
 assumed_store!(LfuStore, 2);
 assumed_store!(FifoStore, 3);
 /// std::sync::Mutex<CacheStore> (R8)
-pub struct Mutex<T> { pub id: Ghost<int>, pub p: core::marker::PhantomData<T> }
+pub struct Mutex<T> { pub id: Ghost<int>, pub init: Ghost<T> }
+impl<T> Mutex<T> {
+    /// Mutex::new: the protected value starts as `v`
+    #[verifier::external_body] pub fn new(v: T) -> (r: Self) ensures r.init@ == v { unimplemented!() }
+}
 #[verifier::external_body]
 pub fn vx_lock<'a, K, V>(m: &'a Arc<Mutex<CacheStore<K, V>>>) -> (r: &'a mut CacheStore<K, V>) { unimplemented!() }
 
@@ -129,6 +133,13 @@ impl<Req, Res: VClone + 'static, E, K: VClone + 'static, F: Fn(&Req) -> K> Cache
         ensures r.store == self.store && r.config == self.config,   // #clones_share_the_store [C10]
     //@body Cache::clone@Clone
 
+    pub fn new(inner: Inner<Req, Res, E>, config: Arc<CacheConfig<F>>) -> (r: Self)
+        ensures
+            r.store.init@.store.kind() == policy_kind(config.eviction_policy) && (config.max_size >= 1 ==> r.store.init@.store.cap() == config.max_size)
+                && r.store.init@.ttl == config.ttl && r.store.init@.store.view() == Map::<K, CacheEntry<Res>>::empty(),   // #private_store_is_built_from_exactly_the_configured_policy_size_and_ttl [C10]
+            r.config == config && r.inner == inner,   // #keeps_inner_and_configuration [C10,C20]
+    //@body Cache::new
+
     pub fn with_store(inner: Inner<Req, Res, E>, config: Arc<CacheConfig<F>>, store: Arc<Mutex<CacheStore<K, Res>>>) -> (r: Self)
         ensures r.store == store && r.config == config && r.inner == inner,   // #shared_layer_uses_the_given_store [C10]
     //@body Cache::with_store
@@ -151,6 +162,29 @@ impl<Req, Res: VClone + 'static, E, K: VClone + 'static, F: Fn(&Req) -> K> Cache
             final(tr).last_done matches Some(Err(e)) ==> result == Err::<Res, CacheError<E>>(CacheError::Inner(e)) && final(tr).store_inserts.len() == 0,   // #errors_are_returned_unchanged_and_never_cached [C10,C20]
             final(self).store == old(self).store && final(self).config == old(self).config,   // #frame
     //@body Cache::call@Service
+}
+/// CacheLayer::shared() / SharedCacheLayer: one store for every service the layer produces
+#[verifier::reject_recursive_types(K)]
+#[verifier::reject_recursive_types(Res)]
+pub struct SharedCacheLayer<K, Res, F> { pub config: Arc<CacheConfig<F>>, pub store: Arc<Mutex<CacheStore<K, Res>>> }
+impl<K: VClone + 'static, Res: VClone + 'static, F> SharedCacheLayer<K, Res, F> {
+    pub fn new(config: CacheConfig<F>) -> (r: Self)
+        ensures
+            r.store.init@.store.kind() == policy_kind(config.eviction_policy) && (config.max_size >= 1 ==> r.store.init@.store.cap() == config.max_size)
+                && r.store.init@.ttl == config.ttl && r.store.init@.store.view() == Map::<K, CacheEntry<Res>>::empty(),   // #shared_store_is_built_from_exactly_the_configured_policy_size_and_ttl [C10]
+            *r.config == config,   // #keeps_the_configuration [C10]
+    //@body SharedCacheLayer::new file=shared
+    pub fn from_config(config: Arc<CacheConfig<F>>) -> (r: Self)
+        ensures
+            r.store.init@.store.kind() == policy_kind(config.eviction_policy) && (config.max_size >= 1 ==> r.store.init@.store.cap() == config.max_size)
+                && r.store.init@.ttl == config.ttl && r.store.init@.store.view() == Map::<K, CacheEntry<Res>>::empty(),   // #shared_store_is_built_from_exactly_the_configured_policy_size_and_ttl [C10]
+            r.config == config,   // #keeps_the_configuration [C10]
+    //@body SharedCacheLayer::from_config file=shared
+}
+impl<Res: VClone + 'static, K: VClone + 'static, F> SharedCacheLayer<K, Res, F> {
+    pub fn layer<Req, E>(&self, service: Inner<Req, Res, E>) -> (r: Cache<Req, Res, E, K, F>) where F: Fn(&Req) -> K
+        ensures r.store == self.store && r.config == self.config && r.inner == service,   // #every_service_of_a_shared_layer_uses_the_one_store [C10]
+    //@body SharedCacheLayer::layer@Layer file=shared
 }
 fn main() {}
 }
